@@ -61,10 +61,10 @@ REQ_SETS = (
     "C11", "http_proxy_hop",
     quick=[{"px": px, "flavour": "sync"} for px in ("http", "https")],
     thorough=[{"px": px, "flavour": fl} for px in ("http", "https") for fl in ("sync", "async")],
-    example=dict(auth=True, ph=2, rq=1, secure=True, port=1, st=0, sni=False),
-    require=("C11:forwarded", "tunnelled", "connect-refused"),
+    example=dict(auth=True, ph=2, rq=1, secure=True, port=1, st=0, sni=False, tgt=True),
+    require=("C11:forwarded", "tunnelled", "connect-refused", "target-extension"),
     timeout={"quick": 300, "thorough": 600},
-    symbolic="credentials on/off; proxy header set (3, one colliding case-insensitively); request method/headers/body (4, incl. User-Agent/Authorization/Cookie); origin scheme http/https; port default/other; CONNECT reply status from 8 values",
+    symbolic="credentials on/off; proxy header set (3, one colliding case-insensitively); request method/headers/body (4, incl. User-Agent/Authorization/Cookie); origin scheme http/https; port default/other; CONNECT reply status from 8 values; whether the request carries the `target` extension",
     bounds="one request per run through an http:// or https:// proxy",
     outside="IPv6-literal origins (known finding under C19); proxy replies with bodies",
     stubs=("ProxyServer model: strict parse of what the client wrote; answers CONNECT with the scripted status",),
@@ -72,7 +72,7 @@ REQ_SETS = (
     per_prop={"C10": {"quick": [{"px": "http", "flavour": "sync", "_pre": "secure == True and ph == 0 and rq == 0 and port == 0 and sni == False"}],
                       "thorough": [{"px": px, "flavour": fl, "_pre": "secure == True and ph == 0"} for px in ("http", "https") for fl in ("sync", "async")]}},
 )
-def http_proxy_hop(auth: bool, ph: int, rq: int, secure: bool, port: int, st: int, sni: bool) -> None:
+def http_proxy_hop(auth: bool, ph: int, rq: int, secure: bool, port: int, st: int, sni: bool, tgt: bool) -> None:
     """
     pre: 0 <= ph <= 2 and 0 <= rq <= 3 and 0 <= port <= 1 and 0 <= st <= 7
     post: _
@@ -86,12 +86,14 @@ def http_proxy_hop(auth: bool, ph: int, rq: int, secure: bool, port: int, st: in
     other_port = ladder(port, 0, 1) == 1
     status = pick(st, CONNECT_STATUS) if is_secure else 200
     use_sni = bool(sni)
-    with concrete(use_auth, is_secure, other_port, status, method, use_sni):
-        _http_proxy_hop(is_async, px, pheaders, method, rheaders, body, use_auth, is_secure, other_port, status, use_sni)
+    raw = bool(tgt)
+    with concrete(use_auth, is_secure, other_port, status, method, use_sni, raw):
+        _http_proxy_hop(is_async, px, pheaders, method, rheaders, body, use_auth, is_secure, other_port, status, use_sni, raw)
 
 
 def _http_proxy_hop(is_async: bool, px: str, pheaders: list, method: str, rheaders: list, body: typing.Any,
-                    use_auth: bool, is_secure: bool, other_port: bool, status: int, use_sni: bool = False) -> None:
+                    use_auth: bool, is_secure: bool, other_port: bool, status: int, use_sni: bool = False,
+                    raw_target: bool = False) -> None:
     vrt.new_runtime(clock=7)
 
     origins: list[AutoOrigin] = []
@@ -120,9 +122,15 @@ def _http_proxy_hop(is_async: bool, px: str, pheaders: list, method: str, rheade
     eff = (8443 if is_secure else 8080) if other_port else (443 if is_secure else 80)
     hostport = f"o.test:{eff}" if other_port else "o.test"
     url = f"{scheme}://{hostport}/path?q=1"
+    path = b"/path?q=1"
+    more: dict[str, typing.Any] = {"sni_hostname": "front.test"} if use_sni else {}
+    if raw_target:
+        # the documented `target` extension: a raw request target for the origin - not for the proxy hop
+        path = b"/raw%20target;x?q=2"
+        more["target"] = path
+        P.cover("target-extension")
     o = api.request(pool, method, url, headers=rheaders, content=body,
-                    extensions=dict({"timeout": {"pool": 0, "read": 5, "write": 5, "connect": 5}},
-                                    **({"sni_hostname": "front.test"} if use_sni else {})))
+                    extensions=dict({"timeout": {"pool": 0, "read": 5, "write": 5, "connect": 5}}, **more))
     P.note(outcome=o.kind(), status=status)
     if not P.check(len(proxies) == 1, "one-proxy-connection", "proxy:connections"):
         return
@@ -140,7 +148,7 @@ def _http_proxy_hop(is_async: bool, px: str, pheaders: list, method: str, rheade
             return
         req = pr.requests[0]
         P.check(req.method == method.encode(), "method", "proxy:forward:method")
-        P.check(req.target == url.encode(), "absolute-form-target", lambda: f"proxy:forward:target:{req.target!r}")
+        P.check(req.target == f"{scheme}://{hostport}".encode() + path, "absolute-form-target", lambda: f"proxy:forward:target:{req.target!r}")
         caller = list(rheaders)
         if not any(k.lower() == b"host" for k, _ in caller):
             caller = [(b"Host", hostport.encode())] + caller
@@ -196,7 +204,7 @@ def _http_proxy_hop(is_async: bool, px: str, pheaders: list, method: str, rheade
             P.check(needle not in inside, "proxy-credentials-never-inside-tunnel", lambda: f"proxy:tunnel:leak-inside:{needle!r}")
         if origins and origins[0].inner is not None:
             oreq = origins[0].inner.requests[0]
-            P.check(oreq.target == b"/path?q=1", "origin-form-inside-tunnel", "proxy:tunnel:inner-target")
+            P.check(oreq.target == path, "origin-form-inside-tunnel", "proxy:tunnel:inner-target")
             P.check(oreq.header(b"X-Secret") == [b"s3cret"], "callers-headers-inside-tunnel", "proxy:tunnel:inner-headers")
             P.check(oreq.body == (body or b""), "callers-body-inside-tunnel", "proxy:tunnel:inner-body")
     else:
